@@ -93,7 +93,7 @@ Proof. exact collapse_spec. Qed.
    max_num_chars, score arithmetic); the fragment is a slice of the text on boundaries; each raw
    highlight is the span of a token whose lower-cased text is a query term; the fragment is at most
    max_num_chars bytes (hence characters) long UNLESS it is a single token longer than that (F9);
-   if offset_to is monotone the highlights lie inside the fragment (otherwise F21). *)
+   the highlights lie inside the fragment. *)
 Theorem C19_snippet_fragment :
   forall alnum lower fold stem dict_find re_find,
   (forall s a b, re_find s = Some (a, b) -> exists m, points_at s a b m) ->
@@ -113,31 +113,31 @@ Theorem C19_fragment_length :
   N.of_nat (length (sn_fragment sn)) <= max.
 Proof. exact fragment_length_unless_f9. Qed.
 
-(* non-overlapping analyzers: raw and collapsed highlights are sorted, disjoint, inside the
-   fragment and on its boundaries; to_html does not panic *)
+(* every analyzer (overlapping tokenizers included): the collapsed highlights are sorted, disjoint,
+   inside the fragment and on its boundaries, cover exactly what the raw ones cover, and to_html
+   does not panic *)
 Theorem C19_snippet_ranges :
   forall alnum lower fold stem dict_find re_find,
   (forall s a b, re_find s = Some (a, b) -> exists m, points_at s a b m) ->
   forall (score : Type) szero sadd spos scmp lower_str T fs terms max text prefix postfix sn,
-  non_overlapping T = true -> forallb no_split fs = true -> blen text <= USIZE_MAX ->
+  forallb no_split fs = true -> blen text <= USIZE_MAX ->
   generate alnum lower fold stem dict_find re_find score szero sadd spos scmp lower_str T fs terms max text = Some sn ->
   ranges_disjoint 0 (collapse (sn_hl sn)) /\
   Forall (fun r => boundary (sn_fragment sn) (fst r) /\ boundary (sn_fragment sn) (snd r)) (collapse (sn_hl sn)) /\
   (forall p, covered p (collapse (sn_hl sn)) <-> covered p (sn_hl sn)) /\
-  ranges_disjoint 0 (sn_hl sn) /\
   exists h, to_html prefix postfix sn = Some h.
 Proof. exact generate_html_ok. Qed.
 
-(* on any token stream (overlapping or not) with monotone offset_to (not F21-class) *)
-Theorem C19_snippet_ranges_monotone :
-  forall (score : Type) szero sadd spos scmp lower_str text ts terms max prefix postfix sn,
-  Forall (span_ok text) ts -> from_sorted ts -> f21_class ts = false ->
-  snippet_of score szero sadd spos scmp lower_str terms max text ts = Some sn ->
-  ranges_disjoint 0 (collapse (sn_hl sn)) /\
-  Forall (fun r => boundary (sn_fragment sn) (fst r) /\ boundary (sn_fragment sn) (snd r)) (collapse (sn_hl sn)) /\
-  (forall p, covered p (collapse (sn_hl sn)) <-> covered p (sn_hl sn)) /\
-  to_html prefix postfix sn <> None.
-Proof. exact snippet_ranges_unless_f21. Qed.
+(* non-overlapping analyzers: the raw highlighted() ranges are sorted and disjoint as well *)
+Theorem C19_highlighted_sorted_disjoint :
+  forall alnum lower fold stem dict_find re_find,
+  (forall s a b, re_find s = Some (a, b) -> exists m, points_at s a b m) ->
+  forall (score : Type) szero sadd spos scmp lower_str T fs terms max text sn,
+  non_overlapping T = true -> forallb no_split fs = true -> blen text <= USIZE_MAX ->
+  generate alnum lower fold stem dict_find re_find score szero sadd spos scmp lower_str T fs terms max text = Some sn ->
+  ranges_disjoint 0 (sn_hl sn).
+Proof. exact generate_raw_disjoint. Qed.
+
 
 (* raw highlighted() ranges are disjoint unless the analyzer emits overlapping tokens (F10) *)
 Theorem C19_highlighted_disjoint :
@@ -187,15 +187,16 @@ Theorem C19_highlighted_disjoint_refuted :
              f10_class (ngram_spec 2 3 false f10_text) = true.
 Proof. eexists. vm_compute. repeat split; reflexivity. Qed.
 
-(* F21: n-gram 1..3 on "abcd", term "abc", max_num_chars = 2: fragment "ab" with highlight 0..3;
-   to_html slices out of range (panic) *)
+(* F21 (fixed in /repo, commit 4e83b48fb): n-gram 1..3 on "abcd", term "abc", max_num_chars = 2 used to give
+   the fragment "ab" with the highlight 0..3 and a panic in to_html.  Regression witness on the model that
+   follows the repaired source (pin SNIPPET_STOP_IS_MAX): the fragment now reaches the furthest token end. *)
 Definition f21_text : list cp := [97;98;99;100].
 Definition f21_terms : list (list cp * N) := [([97;98;99], 1)].
-Theorem C19_highlight_inside_refuted :
+Example f21_regression :
   exists sn, w_gen (TNgram 1 3 false) [] f21_terms 2 f21_text = Some sn /\
-             sn_fragment sn = [97;98] /\ sn_hl sn = [(0, 3)] /\
-             to_html SNIPPET_DEFAULT_PREFIX SNIPPET_DEFAULT_POSTFIX sn = None /\
-             f21_class (ngram_spec 1 3 false f21_text) = true.
+             sn_fragment sn = [97;98;99] /\ sn_hl sn = [(0, 3)] /\
+             to_html SNIPPET_DEFAULT_PREFIX SNIPPET_DEFAULT_POSTFIX sn
+             = Some (SNIPPET_DEFAULT_PREFIX ++ [97;98;99] ++ SNIPPET_DEFAULT_POSTFIX).
 Proof. eexists. vm_compute. repeat split; reflexivity. Qed.
 
 (* F22: the facet tokenizer leaves offsets at 0..0 while the token text is a facet path *)
@@ -231,4 +232,4 @@ Print Assumptions C19_snippet_fragment.
 Print Assumptions C19_fragment_length.
 Print Assumptions C19_snippet_ranges.
 Print Assumptions C19_html_roundtrip.
-Print Assumptions C19_highlight_inside_refuted.
+Print Assumptions C19_highlighted_sorted_disjoint.
